@@ -47,7 +47,7 @@ def run_case(job):
 
     c = case["cfg"]
     dim = c["dim"]
-    key = f"{phys}{dim}D/{elem}/{c['kind']}/{c['region']}/{c['dens'][0]}/{c['form']}" + ("/stray" if c["stray"] else "") + ("/flood" if c.get("flood") else "") + ("/dup" if c.get("dup") else "")
+    key = f"{phys}{dim}D/{elem}/{c['kind']}/{c['region']}/{c['dens'][0]}/{c['form']}" + ("/stray" if c["stray"] else "") + ("/flood" if c.get("flood") else "") + ("/dup" if c.get("dup") else "") + ("/permuted" if c.get("order") == "permuted" else "")
     viol = []
     vec = phys != "thermal"
     kw = {}
@@ -84,6 +84,8 @@ def run_case(job):
             nodes = np.concatenate([nodes, inner])
         if c.get("dup"):
             nodes = np.concatenate([nodes, nodes[:2]])  # the same region, two nodes listed twice
+        if c.get("order") == "permuted":
+            nodes = nodes[np.random.default_rng(len(nodes)).permutation(len(nodes))]  # the same selection, listed in another order
         Xn = mesh.coord[nodes]
         if c["form"] == "const":
             vals = [1.0, 0.0, 1.0][: len(unk)] if vec else [1.0]
@@ -142,7 +144,7 @@ def run_case(job):
         import traceback
 
         viol.append((f"raises/{key}", f"{key}: {type(ex).__name__}: {ex} | {traceback.format_exc()[-300:]}", {"case": case, "elem": elem}))
-    return {"viol": viol, "n": 1, "keys": [(phys, dim, elem, c["kind"], c["region"], c["dens"][0], c["form"], c["stray"], c.get("dup"), tuple(c["thick"]))], "traces": 1,
+    return {"viol": viol, "n": 1, "keys": [(phys, dim, elem, c["kind"], c["region"], c["dens"][0], c["form"], c["stray"], c.get("dup"), c.get("order"), tuple(c["thick"]))], "traces": 1,
             "cls": type(sim).__name__ if "sim" in dir() else None, "phys": phys}
 
 
